@@ -473,7 +473,7 @@ func c07Run(c *fw.Ctx) fw.Outcome {
 	out := filepath.Join(dir, "out."+caseMix(r, dst))
 	os.WriteFile(in, data, 0o644)
 	os.WriteFile(in2, otherData, 0o644)
-	os.Remove(out)
+	out = outPath(r, "", out) // a fresh destination, or one that holds an earlier, much longer file
 	// operation sequence
 	var ops []c07Op
 	nops := r.Intn(5)
